@@ -107,6 +107,26 @@ func cList(items []string) string {
 	if len(items) == 0 {
 		return "[]"
 	}
+	// long lists with runs of identical elements are printed run-length encoded
+	// (rl [(n, x); ...]): cheap for coqc to elaborate
+	if len(items) >= 32 {
+		var parts []string
+		long := false
+		for i := 0; i < len(items); {
+			j := i
+			for j < len(items) && items[j] == items[i] {
+				j++
+			}
+			if j-i >= 8 {
+				long = true
+			}
+			parts = append(parts, fmt.Sprintf("(%d%%nat, %s)", j-i, items[i]))
+			i = j
+		}
+		if long {
+			return "(rl [" + strings.Join(parts, "; ") + "])"
+		}
+	}
 	return "[" + strings.Join(items, "; ") + "]"
 }
 
